@@ -107,32 +107,60 @@ def cache_flow(ctx: Ctx) -> RuleResult:
             rv = next((k.value for k in sched[0].keywords if k.arg == "results"), None)
             if not isinstance(rv, ast.Name):
                 raise Undecided(f"{rs.short}: results argument of the scheduler is not a name")
-            defs = [d for d in ctx.reaching_defs(rs, rv.id, sched[0]) if isinstance(d, ast.Assign)]
-            if rv.id == pr and ctx.entry_reaches(rs, pr, sched[0]) and not defs:
-                r.ob(True, {"in": rs.short, "scheduler starts from": pr})
-                continue
-            uses_param = False
-            for d in defs:
-                srcs = {x.id for x in ast.walk(d.value) if isinstance(x, ast.Name)}
-                tests = [(norm_src(t), v) for t, v in chains.get(id(d), ())]
+            def _none_test(t: ast.AST, v: bool) -> Optional[bool]:
+                """True: the test (taken with outcome v) says 'pr is None'; False: says 'pr is not None'; None: says nothing about it."""
+                while isinstance(t, ast.UnaryOp) and isinstance(t.op, ast.Not):
+                    t, v = t.operand, not v
+                if isinstance(t, ast.Compare) and len(t.ops) == 1 and dotted(t.left) == pr and isinstance(t.comparators[0], ast.Constant) \
+                        and t.comparators[0].value is None and isinstance(t.ops[0], (ast.Is, ast.IsNot)):
+                    return isinstance(t.ops[0], ast.Is) == v
+                return None
 
-                def _is_none_arm(t: ast.AST, v: bool) -> bool:
-                    while isinstance(t, ast.UnaryOp) and isinstance(t.op, ast.Not):
-                        t, v = t.operand, not v
-                    return isinstance(t, ast.Compare) and len(t.ops) == 1 and dotted(t.left) == pr and isinstance(t.comparators[0], ast.Constant) \
-                        and t.comparators[0].value is None and ((isinstance(t.ops[0], ast.Is) and v) or (isinstance(t.ops[0], ast.IsNot) and not v))
-                none_arm = any(_is_none_arm(t, v) for t, v in chains.get(id(d), ()))
-                if pr in srcs:
-                    uses_param = True
-                    r.ob(True, {"in": rs.short, "scheduler starts from": norm_src(d.value)[:70]})
-                elif not none_arm:
-                    r.ob(False, {"in": rs.short, "scheduler starts from": norm_src(d.value)[:70], "under": tests})
-                    r.violate(f"{rs.short}: with results supplied by the caller the scheduler still starts from {norm_src(d.value)[:50]}",
-                              rs.loc(d), "the cached entries merged by the executor are dropped in this flavour: every cached node is executed again",
-                              norm_src(d))
-            if not uses_param and not r.findings:
-                r.violate(f"{rs.short}: the results supplied by the caller never reach the scheduler", rs.loc(sched[0]),
-                          "the cached entries are dropped: every cached node is executed again", norm_src(sched[0])[:100])
+            def flows(e: ast.AST, at: ast.AST, depth: int = 0) -> Optional[bool]:
+                """Assuming the caller supplied results (pr is not None): does e derive from pr? None = cannot tell."""
+                if depth > 6:
+                    return None
+                if isinstance(e, ast.Name):
+                    if e.id == pr and ctx.entry_reaches(rs, pr, at):
+                        rd = [d for d in ctx.reaching_defs(rs, pr, at) if isinstance(d, ast.Assign)]
+                        if not rd:
+                            return True
+                    ds = [d for d in ctx.reaching_defs(rs, e.id, at) if isinstance(d, ast.Assign)]
+                    verdicts = []
+                    for d in ds:
+                        arm = [x for x in (_none_test(t, v) for t, v in chains.get(id(d), ())) if x is not None]
+                        if arm and arm[-1] is True:
+                            continue  # only reached when nothing was supplied
+                        verdicts.append(flows(d.value, d, depth + 1))
+                    if e.id == pr and ctx.entry_reaches(rs, pr, at):
+                        verdicts.append(True)
+                    if not verdicts:
+                        return None
+                    if any(x is False for x in verdicts):
+                        return False
+                    return True if all(x is True for x in verdicts) else None
+                if isinstance(e, ast.IfExp):
+                    nt = _none_test(e.test, True)
+                    if nt is True:
+                        return flows(e.orelse, at, depth + 1)
+                    if nt is False:
+                        return flows(e.body, at, depth + 1)
+                    a_, b_ = flows(e.body, at, depth + 1), flows(e.orelse, at, depth + 1)
+                    return False if False in (a_, b_) else (True if a_ and b_ else None)
+                if isinstance(e, ast.Call) and e.args:
+                    return flows(e.args[0], at, depth + 1)
+                if isinstance(e, ast.Attribute):
+                    return False
+                return None
+
+            verdict = flows(rv, sched[0])
+            r.ob(verdict is True, {"in": rs.short, "with results supplied, the scheduler starts from them": verdict})
+            if verdict is False:
+                r.violate(f"{rs.short}: with results supplied by the caller the scheduler still starts from the DAG's own results",
+                          rs.loc(sched[0]), "the cached entries merged by the executor are dropped in this flavour: every cached node is executed again",
+                          norm_src(sched[0])[:100])
+            elif verdict is None:
+                raise Undecided(f"{rs.short}: cannot follow the supplied results to the scheduler's results argument")
     else:
         raise Undecided(f"merged map is an attribute ({M}); flow through attributes is not modelled")
     return r
